@@ -353,6 +353,72 @@ func scnEarlyReleaseUDP(t *testing.T, rounds int) {
 	synctest.Wait()
 }
 
+// dupreq: n confirmable requests are answered (the replies are cached for de-duplication), then the peer repeats them all:
+// every repeated request must be answered with exactly the bytes of its first reply.  A reply that changed came out of
+// memory that was given back in the meantime (the cache must own what it keeps).
+func scnDupReqUDP(t *testing.T, n int) {
+	w := newUDP(false)
+	w.handler = func(rw *responsewriter.ResponseWriter[*udpclient.Conn], r *pool.Message) {
+		done := hold(r)
+		body := fmt.Sprintf("reply-for-%x-%s", []byte(r.Token()), strings.Repeat("x", int(r.Token()[1])%7))
+		_ = rw.SetResponse(codes.Content, message.TextPlain, strings.NewReader(body))
+		done()
+	}
+	mk := func(i int) *pool.Message {
+		m := pool.NewMessage(context.Background())
+		m.SetCode(codes.GET)
+		m.SetToken(message.Token{0xD0, byte(i)})
+		m.SetType(message.Confirmable)
+		m.SetMessageID(int32(31000 + i))
+		_ = m.SetPath("/dup")
+		return m
+	}
+	first := map[int][]byte{}
+	take := func() []byte {
+		var last []byte
+		for _, d := range w.s.TakeSent() {
+			last = d.Data
+		}
+		return last
+	}
+	for i := 0; i < n; i++ {
+		w.inject(mk(i))
+		synctest.Wait()
+		first[i] = take()
+	}
+	for i := 0; i < n; i++ {
+		w.inject(mk(i))
+		synctest.Wait()
+		again := take()
+		if again != nil && !bytes.Equal(again, first[i]) {
+			pool.VerifTraceMark("leak", pool.NewMessage(context.Background()))
+		}
+	}
+	_ = w.cc.Close()
+	synctest.Wait()
+}
+
+// bwwritedup: a one-way block-wise write (body larger than a block) is started twice with one token while the first is
+// unfinished: the second is refused - and whatever the layer acquired for it must be given back exactly once.
+func scnBWWriteDupUDP(t *testing.T, rounds int) {
+	w := newUDP(true)
+	for i := 0; i < rounds; i++ {
+		for k := 0; k < 2; k++ {
+			m := w.cc.AcquireMessage(context.Background())
+			m.SetCode(codes.Content)
+			m.SetToken(message.Token{0xE0, byte(i)})
+			m.SetType(message.NonConfirmable)
+			m.SetContentFormat(message.AppOctets)
+			m.SetBody(bytes.NewReader(bytes.Repeat([]byte{byte(0x40 + k)}, 100)))
+			_ = w.cc.WriteMessage(m)
+			w.cc.ReleaseMessage(m)
+			synctest.Wait()
+		}
+	}
+	_ = w.cc.Close()
+	synctest.Wait()
+}
+
 func scnObserveUDP(t *testing.T, n int) {
 	w := newUDP(false)
 	w.onSent = func(m *pool.Message) {
@@ -642,6 +708,12 @@ func runScenario(t *testing.T, f []string) (trace []string) {
 			scnPathUDP(t, arg)
 		case "udp:do":
 			scnDoUDP(t, arg)
+		case "udp:dupreq":
+			n, _ := strconv.Atoi(arg)
+			scnDupReqUDP(t, n)
+		case "udp:bwwritedup":
+			n, _ := strconv.Atoi(arg)
+			scnBWWriteDupUDP(t, n)
 		case "udp:earlyrel":
 			n, _ := strconv.Atoi(arg)
 			scnEarlyReleaseUDP(t, n)
